@@ -355,7 +355,7 @@ class __Class(_pre.Pregex):
         If this instance is a negated class, then converts it to its regular counterpart.
         '''
         s, rs = '' if self.__is_negated else '^', '^' if self.__is_negated else ''
-        return __class__(f"[{s}{self.__verbose.lstrip('[' + rs).rstrip(']')}]", not self.__is_negated)
+        return __class__(f"[{s}{self.__verbose[len('[' + rs):-1]}]", not self.__is_negated)
 
 
     def __or__(self, pre: '__Class' or str) -> '__Class':
